@@ -42,6 +42,7 @@ class World:
         self.install = install
         self.mod = sys.modules["sgio" if transport == "sgio" else "iscsi"]
         self.by_dev = {}
+        self.by_ino = {}
         self.closed_handle_events = 0
         self.mod.handler = self.route
         self.n = 0
@@ -49,6 +50,13 @@ class World:
     def route(self, ev):
         if ev.get("file_closed"):
             self.closed_handle_events += 1
+        if self.transport == "sgio" and self.by_ino:
+            # the unit behind the *handle* (as the kernel sees it), not behind the name the handle was opened with
+            import os
+
+            ino = os.fstat(ev["file"].fileno()).st_ino
+            if ino in self.by_ino:
+                return self.by_ino[ino].handle(ev)
         if self.transport == "sgio":
             key = ev["file"].name
         else:
@@ -181,6 +189,8 @@ def run(shard, ctx):
                 w.close(dev)
         return
     if shard["kind"] == "revisit":
+        if t == "sgio":
+            run_relinked(ctx, w, SCSI, rng)
         run_attach_faults(ctx, w, SCSI, t)
         return run_revisit(ctx, w, SCSI, t, rng)
     seqs = []
@@ -227,6 +237,56 @@ def run(shard, ctx):
         for d in devs:
             w.close(d[0])
         ctx.count("histories")
+
+
+def run_relinked(ctx, w, SCSI, rng):
+    """the device path is a persistent name (a symlink); the name is moved to another unit (another node of another type) while
+    the device object lives; the next attach of that device object probes, and selects for, the unit the path names now.  Before it,
+    a public helper's result for the values the attach itself converts is edited in place (it is the caller's)."""
+    import os
+
+    import pyscsi.utils.converter as conv
+    from pyscsi.pyscsi.scsi_device import SCSIDevice
+
+    from vmon.sim import devnode
+    from vmon.sim.target import Target
+
+    for t1, t2 in ((0x00, 0x01), (0x01, 0x00), (0x05, 0x08), (0x08, 0x05), (0x00, 0x0C), (0x07, 0x05), (0x01, 0x01)):
+        for detect in (True, False):
+            for pollute in (False, True):
+                node = devnode.new_node(link=True)
+                a, b = Target(t1, 0), Target(t2, 0)
+                w.by_ino[os.stat(node).st_ino] = a
+                wit = {"transport": "sgio", "types": [t1, t2], "path_is_symlink": True, "detect_replugged": detect}
+                ctx.case(("relinked", t1, t2, detect, pollute), True, sample=wit if ctx.want_sample() else None)
+                ctx.count("relinked_histories")
+                if pollute:
+                    for args in ((96, 2), (96, 1), (0x12, 1), (0, 1), (96,), (0, 2)):
+                        try:
+                            x = conv.scsi_int_to_ba(*args)
+                            x += b"\xde\xad"
+                            x[0] ^= 0xFF
+                        except Exception:  # noqa: BLE001
+                            pass
+                try:
+                    dev = SCSIDevice(node, False, detect)
+                    s = SCSI(dev)
+                    check_attached(ctx, dev, a, t1, dict(wit, step=0))
+                    devnode.replug(node)
+                    w.by_ino[os.stat(node).st_ino] = b
+                    n_b = len(b.log)
+                    s(dev)
+                except Exception as e:  # noqa: BLE001
+                    ctx.fail("C16:attach_raises.%s" % type(e).__name__, "attach over a re-pointed persistent name raised %s" % e, wit, exc=e)
+                    w.by_ino.clear()
+                    continue
+                if detect:
+                    if len(b.log) - n_b != 1 or getattr(dev, "devicetype", None) != t2 or (EXPECT.get(t2) and name_of(dev.opcodes) != EXPECT[t2]):
+                        ctx.fail("C16:relinked_path_probes_old_unit", "the path now names a type %02Xh unit; the re-attach sent it %d INQUIRYs and selected type %r / %s"
+                                 % (t2, len(b.log) - n_b, getattr(dev, "devicetype", None), name_of(dev.opcodes)), wit)
+                w.close(dev)
+                w.by_ino.clear()
+                devnode.remove_all(node)
 
 
 def run_attach_faults(ctx, w, SCSI, t):
